@@ -36,20 +36,36 @@ theorem getCtx_ctr (ns : Nat) (w : PW) (x : HItem) : w.ctr ≤ ((getCtx ns x).ru
 theorem accFill_ctr (ns : Nat) (k : AccKind) (w : PW) (s : AccSt) (x : HItem) :
     w.ctr ≤ ((accFill ns k s x).run w).1.ctr := by
   have := getCtx_ctr ns w x
-  cases k <;> simp only [accFill, M.bind_run, M.pure_run, copyM_run] <;> try exact this
+  cases k
+  case groupBy key =>
+    simp only [accFill, M.bind_run]
+    split <;> split <;> simp
+  all_goals simp only [accFill, M.bind_run, M.pure_run, copyM_run]
+  all_goals try exact this
   all_goals (try (split <;> simp <;> omega))
   all_goals simp
 
-theorem accCompute_fresh (ns : Nat) (k : AccKind) (hk : k ≠ .store ∧ k ≠ .keepLast ∧ k ≠ .reqStore)
+theorem accCompute_fresh (ns : Nat) (k : AccKind) (hk : k.fresh = true)
     (w : PW) (s : AccSt) :
     w.ctr ≤ ((accCompute ns k s).run w).1.ctr ∧
     (∀ t ∈ cellsOf ((accCompute ns k s).run w).2.2.outs, InRange ns w.ctr ((accCompute ns k s).run w).1.ctr t) ∧
     (cellsOf ((accCompute ns k s).run w).2.2.outs).Nodup := by
   have hc := curTok_spec ns w s
   cases k with
-  | store => simp at hk
-  | keepLast => simp at hk
-  | reqStore => simp at hk
+  | store => simp [AccKind.fresh] at hk
+  | keepLast => simp [AccKind.fresh] at hk
+  | reqStore => simp [AccKind.fresh] at hk
+  | storeGroup => simp [AccKind.fresh] at hk
+  | groupBy key => simp [AccKind.fresh] at hk
+  | graph =>
+    simp only [accCompute, M.bind_run, M.pure_run, copyM_run, updM_run, M.ite_run]
+    split <;> simp [mkItem, cellsOf, InRange] <;> omega
+  | vecList =>
+    simp only [accCompute, maybeWithContext, M.ite_run]
+    split
+    · simp [cellsOf]
+    · simp only [M.bind_run, M.pure_run, copyM_run, readM_run]
+      split <;> simp [mkItem, cellsOf, InRange] <;> omega
   | sum =>
     simp only [accCompute, M.bind_run, readM_run]
     split
@@ -79,7 +95,9 @@ theorem accCompute_fresh (ns : Nat) (k : AccKind) (hk : k ≠ .store ∧ k ≠ .
     simp only [accCompute, maybeWithContext, M.ite_run]
     split
     · split <;> simp [cellsOf]
-    · rcases sumSeq with _ | _ | name
+    · rcases sumSeq with _ | _ | _ | name
+      · simp only [M.bind_run, M.pure_run, copyM_run, readM_run]
+        split <;> simp [mkItem, cellsOf, InRange] <;> omega
       · simp only [M.bind_run, M.pure_run, copyM_run, readM_run]
         split <;> simp [mkItem, cellsOf, InRange] <;> omega
       · simp only [M.bind_run, M.pure_run, copyM_run, readM_run]
@@ -206,18 +224,68 @@ theorem maybeWithContext_lc (d : Value) (c : Tok) (hc : F c) : LC F (ItemIn F) (
 def RefsIn (F : Tok → Prop) (s : AccSt) : Prop := ∀ t ∈ s.refs, F t
 
 theorem refsIn_mk {total : Int} {count : Nat} {cur : Option Tok} {group : List HItem}
-    (hc : ∀ t, cur = some t → F t) (hg : ∀ t ∈ cellsOf group, F t) : RefsIn F ⟨total, count, cur, group⟩ := by
+    {groups : List (Option Value × Tok × List HItem)}
+    (hc : ∀ t, cur = some t → F t) (hg : ∀ t ∈ cellsOf group, F t) (hgs : ∀ t ∈ groupsCells groups, F t) :
+    RefsIn F ⟨total, count, cur, group, groups⟩ := by
   intro t ht
   simp only [AccSt.refs, List.mem_append, Option.mem_toList] at ht
-  rcases ht with ht | ht
+  rcases ht with (ht | ht) | ht
   · exact hc t ht
   · exact hg t ht
+  · exact hgs t ht
+
+theorem RefsIn.groups {s : AccSt} (h : RefsIn F s) : ∀ t ∈ groupsCells s.groups, F t :=
+  fun t ht => h t (by simp only [AccSt.refs, List.mem_append]; exact Or.inr ht)
+
+theorem groupsCells_append (a b : List (Option Value × Tok × List HItem)) :
+    groupsCells (a ++ b) = groupsCells a ++ groupsCells b := by
+  induction a with
+  | nil => rfl
+  | cons g r ih => simp [groupsCells, ih, List.append_assoc]
+
+theorem groupsCells_cons (g : Option Value × Tok × List HItem) (r : List (Option Value × Tok × List HItem)) :
+    groupsCells (g :: r) = g.2.1 :: cellsOf g.2.2 ++ groupsCells r := rfl
+
+theorem groupsCells_groupAppend (k : Option Value) (x : HItem) : ∀ (gs : List (Option Value × Tok × List HItem)) (t : Tok),
+    t ∈ groupsCells (groupAppend k x gs) → t ∈ groupsCells gs ∨ t ∈ x.cells := by
+  intro gs
+  induction gs with
+  | nil => intro t ht; simp [groupAppend, groupsCells] at ht
+  | cons g r ih =>
+    intro t ht
+    simp only [groupAppend] at ht
+    split at ht
+    · rw [groupsCells_cons] at ht ⊢
+      simp only [cellsOf_append, List.mem_cons, List.mem_append, cellsOf_cons, cellsOf_nil,
+        List.append_nil] at ht ⊢
+      rcases ht with (ht | ht | ht) | ht
+      · exact Or.inl (Or.inl (Or.inl ht))
+      · exact Or.inl (Or.inl (Or.inr ht))
+      · exact Or.inr ht
+      · exact Or.inl (Or.inr ht)
+    · rw [groupsCells_cons] at ht ⊢
+      simp only [List.mem_cons, List.mem_append] at ht ⊢
+      rcases ht with (ht | ht) | ht
+      · exact Or.inl (Or.inl (Or.inl ht))
+      · exact Or.inl (Or.inl (Or.inr ht))
+      · rcases ih t ht with h | h
+        · exact Or.inl (Or.inr h)
+        · exact Or.inr h
+
+theorem cellsOf_mkGroups : ∀ (gs : List (Option Value × Tok × List HItem)),
+    cellsOf (gs.map (fun g => mkGroup g.2.1 g.2.2)) = groupsCells gs := by
+  intro gs
+  induction gs with
+  | nil => rfl
+  | cons g r ih =>
+    rw [List.map_cons, cellsOf_cons, ih]
+    simp [groupsCells, mkGroup]
 
 theorem RefsIn.cur {s : AccSt} (h : RefsIn F s) : ∀ t, s.cur = some t → F t :=
   fun t ht => h t (by simp [AccSt.refs, ht])
 
 theorem RefsIn.group {s : AccSt} (h : RefsIn F s) : ∀ t ∈ cellsOf s.group, F t :=
-  fun t ht => h t (by simp only [AccSt.refs, List.mem_append]; exact Or.inr ht)
+  fun t ht => h t (by simp only [AccSt.refs, List.mem_append]; exact Or.inl (Or.inr ht))
 
 theorem some_inj_F {c : Tok} (hc : F c) : ∀ t, some c = some t → F t := by
   intro t ht; simp at ht; subst ht; exact hc
@@ -226,21 +294,49 @@ theorem accFill_lc (hns : ∀ t, t.1 = ns → F t) (k : AccKind) (s : AccSt) (hs
     (hx : ItemIn F x) : LC F (RefsIn F) (accFill ns k s x) := by
   have g := getCtx_lc hns x hx
   cases k <;> simp only [accFill]
-  case sum => exact LC.bind g (fun c hc => LC.pure _ (refsIn_mk (some_inj_F hc) hs.group))
-  case dsum => exact LC.bind g (fun c hc => LC.pure _ (refsIn_mk (some_inj_F hc) hs.group))
-  case reqSum => exact LC.bind g (fun c hc => LC.pure _ (refsIn_mk (some_inj_F hc) hs.group))
-  case count => exact LC.bind g (fun c hc => LC.pure _ (refsIn_mk (some_inj_F hc) hs.group))
-  case mean => exact LC.bind g (fun c hc => LC.pure _ (refsIn_mk (some_inj_F hc) hs.group))
-  case vmc => exact LC.bind g (fun c hc => LC.pure _ (refsIn_mk (some_inj_F hc) hs.group))
-  case vectorize => exact LC.bind g (fun c hc => LC.pure _ (refsIn_mk (some_inj_F hc) hs.group))
-  case histogram => exact LC.bind g (fun c hc => LC.pure _ (refsIn_mk (some_inj_F hc) hs.group))
+  case sum => exact LC.bind g (fun c hc => LC.pure _ (refsIn_mk (some_inj_F hc) hs.group hs.groups))
+  case dsum => exact LC.bind g (fun c hc => LC.pure _ (refsIn_mk (some_inj_F hc) hs.group hs.groups))
+  case reqSum => exact LC.bind g (fun c hc => LC.pure _ (refsIn_mk (some_inj_F hc) hs.group hs.groups))
+  case count => exact LC.bind g (fun c hc => LC.pure _ (refsIn_mk (some_inj_F hc) hs.group hs.groups))
+  case mean => exact LC.bind g (fun c hc => LC.pure _ (refsIn_mk (some_inj_F hc) hs.group hs.groups))
+  case vmc => exact LC.bind g (fun c hc => LC.pure _ (refsIn_mk (some_inj_F hc) hs.group hs.groups))
+  case vectorize => exact LC.bind g (fun c hc => LC.pure _ (refsIn_mk (some_inj_F hc) hs.group hs.groups))
+  case histogram => exact LC.bind g (fun c hc => LC.pure _ (refsIn_mk (some_inj_F hc) hs.group hs.groups))
   case sib var lo hi =>
     refine LC.bind g (fun c hc => LC.bind (LC.copy hns c hc) (fun d hd => ?_))
     split
     · exact LC.pure _ hs
-    · exact LC.pure _ (refsIn_mk (some_inj_F hd) hs.group)
+    · exact LC.pure _ (refsIn_mk (some_inj_F hd) hs.group hs.groups)
+  case vecList => exact LC.bind g (fun c hc => LC.pure _ (refsIn_mk (some_inj_F hc) hs.group hs.groups))
+  case graph => exact LC.bind g (fun c hc => LC.pure _ (refsIn_mk (some_inj_F hc) hs.group hs.groups))
+  case groupBy key =>
+    have hk : LC F (fun _ => True) (match x.ctxTok with
+        | some c => do
+          let v ← readM c
+          pure ((ctxOf v).lookup key)
+        | none => pure none : M (Option Value)) := by
+      cases h : x.ctxTok with
+      | some c => exact LC.bind (LC.read c (hx c (ctxTok_mem h))) (fun v _ => LC.pure _ trivial)
+      | none => exact LC.pure _ trivial
+    refine LC.bind hk (fun k _ => ?_)
+    split
+    · refine LC.pure _ (refsIn_mk hs.cur hs.group ?_)
+      intro t ht
+      rcases groupsCells_groupAppend k x s.groups t ht with h | h
+      · exact hs.groups t h
+      · exact hx t h
+    · refine LC.bind (LC.alloc hns _) (fun l hl => LC.pure _ (refsIn_mk hs.cur hs.group ?_))
+      intro t ht
+      rw [groupsCells_append] at ht
+      rcases List.mem_append.mp ht with ht | ht
+      · exact hs.groups t ht
+      · simp only [groupsCells, cellsOf_cons, cellsOf_nil, List.append_nil, List.mem_cons, List.mem_append,
+          List.not_mem_nil, or_false] at ht
+        rcases ht with rfl | ht
+        · exact hl
+        · exact hx t ht
   all_goals
-    refine LC.pure _ (refsIn_mk hs.cur ?_)
+    refine LC.pure _ (refsIn_mk hs.cur ?_ hs.groups)
     intro t ht
     rw [cellsOf_append] at ht
     rcases List.mem_append.mp ht with ht | ht
@@ -262,17 +358,17 @@ theorem accCompute_lc (hns : ∀ t, t.1 = ns → F t) (k : AccKind) (s : AccSt) 
   have g := curTok_lc hns s hs
   have one : ∀ (c d : Tok) (v : Value), F c → F d →
       CompIn F (({ s with cur := some c } : AccSt), { outs := [mkItem v (some d)] }) :=
-    fun c d v hc hd => compIn_one (refsIn_mk (some_inj_F hc) hs.group) (mkItem_in (some_inj_F hd))
+    fun c d v hc hd => compIn_one (refsIn_mk (some_inj_F hc) hs.group hs.groups) (mkItem_in (some_inj_F hd))
   cases k <;> simp only [accCompute]
   case sum =>
     refine LC.bind g (fun c hc => LC.bind (LC.read c hc) (fun v _ => ?_))
     split
-    · exact LC.pure _ (compIn_one (refsIn_mk (some_inj_F hc) hs.group) (mkItem_in (by simp)))
+    · exact LC.pure _ (compIn_one (refsIn_mk (some_inj_F hc) hs.group hs.groups) (mkItem_in (by simp)))
     · exact LC.bind (LC.copy hns c hc) (fun d hd => LC.pure _ (one c d _ hc hd))
   case dsum =>
     refine LC.bind g (fun c hc => LC.bind (LC.read c hc) (fun v _ => ?_))
     split
-    · exact LC.pure _ (compIn_one (refsIn_mk (some_inj_F hc) hs.group) (mkItem_in (by simp)))
+    · exact LC.pure _ (compIn_one (refsIn_mk (some_inj_F hc) hs.group hs.groups) (mkItem_in (by simp)))
     · exact LC.bind (LC.copy hns c hc) (fun d hd => LC.pure _ (one c d _ hc hd))
   case reqSum =>
     exact LC.bind g (fun c hc => LC.bind (LC.copy hns c hc) (fun d hd => LC.pure _ (one c d _ hc hd)))
@@ -287,7 +383,7 @@ theorem accCompute_lc (hns : ∀ t, t.1 = ns → F t) (k : AccKind) (s : AccSt) 
   case vectorize dim =>
     exact LC.bind g (fun c hc => LC.bind (LC.copy hns c hc) (fun d hd =>
       LC.bind (maybeWithContext_lc _ d hd) (fun y hy =>
-        LC.pure _ (compIn_one (refsIn_mk (some_inj_F hc) hs.group) hy))))
+        LC.pure _ (compIn_one (refsIn_mk (some_inj_F hc) hs.group hs.groups) hy))))
   case vmc corrected poe =>
     split
     · split
@@ -297,7 +393,7 @@ theorem accCompute_lc (hns : ∀ t, t.1 = ns → F t) (k : AccKind) (s : AccSt) 
       · exact LC.pure _ (compIn_nil hs _)
       · exact LC.bind g (fun c hc => LC.bind (LC.copy hns c hc) (fun d hd =>
           LC.bind (maybeWithContext_lc _ d hd) (fun y hy =>
-            LC.pure _ (compIn_one (refsIn_mk (some_inj_F hc) hs.group) hy))))
+            LC.pure _ (compIn_one (refsIn_mk (some_inj_F hc) hs.group hs.groups) hy))))
   case mean sumSeq poe =>
     split
     · split
@@ -306,13 +402,13 @@ theorem accCompute_lc (hns : ∀ t, t.1 = ns → F t) (k : AccKind) (s : AccSt) 
     · refine LC.bind g (fun c hc => LC.bind (LC.copy hns c hc) (fun d hd =>
           LC.bind (maybeWithContext_lc _ d hd) (fun y hy => ?_)))
       split
-      · refine LC.bind (LC.copy hns c hc) (fun e he => LC.bind (LC.upd e he _) (fun _ _ => LC.pure _ ⟨refsIn_mk (some_inj_F hc) hs.group, ?_⟩))
+      · refine LC.bind (LC.copy hns c hc) (fun e he => LC.bind (LC.upd e he _) (fun _ _ => LC.pure _ ⟨refsIn_mk (some_inj_F hc) hs.group hs.groups, ?_⟩))
         intro t ht
         simp only [cellsOf, List.flatMap_cons, List.flatMap_nil, List.append_nil, List.mem_append] at ht
         rcases ht with ht | ht
         · exact hy t ht
         · exact mkItem_in (some_inj_F he) t ht
-      · exact LC.pure _ (compIn_one (refsIn_mk (some_inj_F hc) hs.group) hy)
+      · exact LC.pure _ (compIn_one (refsIn_mk (some_inj_F hc) hs.group hs.groups) hy)
   case store => exact LC.pure _ ⟨hs, hs.group⟩
   case keepLast =>
     refine LC.pure _ ⟨hs, ?_⟩
@@ -322,7 +418,31 @@ theorem accCompute_lc (hns : ∀ t, t.1 = ns → F t) (k : AccKind) (s : AccSt) 
     | some y =>
       simp only [hl, Option.toList_some, cellsOf, List.flatMap_cons, List.flatMap_nil, List.append_nil] at ht
       exact hs.group t (by simp only [cellsOf, List.mem_flatMap]; exact ⟨y, List.mem_of_getLast? hl, ht⟩)
-  case reqStore => exact LC.pure _ ⟨refsIn_mk hs.cur (by intro t ht; simp [cellsOf] at ht), hs.group⟩
+  case reqStore => exact LC.pure _ ⟨refsIn_mk hs.cur (by intro t ht; simp [cellsOf] at ht) hs.groups, hs.group⟩
+  case vecList =>
+    split
+    · exact LC.pure _ (compIn_nil hs _)
+    · exact LC.bind g (fun c hc => LC.bind (LC.copy hns c hc) (fun d hd =>
+        LC.bind (maybeWithContext_lc _ d hd) (fun y hy =>
+          LC.pure _ (compIn_one (refsIn_mk (some_inj_F hc) hs.group hs.groups) hy))))
+  case graph =>
+    refine LC.bind g (fun c hc => LC.bind (LC.copy hns c hc) (fun d hd => LC.bind (LC.upd d hd _) (fun _ _ =>
+      LC.bind (Q := fun _ => True) ?_ (fun _ _ => LC.pure _ (one c d _ hc hd)))))
+    split
+    · exact LC.pure _ trivial
+    · exact LC.upd d hd _
+  case storeGroup =>
+    refine LC.bind (LC.alloc hns _) (fun l hl => LC.pure _ ⟨hs, ?_⟩)
+    intro t ht
+    simp only [cellsOf_cons, cellsOf_nil, List.append_nil, mkGroup, List.mem_cons] at ht
+    rcases ht with rfl | ht
+    · exact hl
+    · exact hs.group t ht
+  case groupBy key =>
+    refine LC.pure _ ⟨hs, ?_⟩
+    intro t ht
+    rw [cellsOf_mkGroups] at ht
+    exact hs.groups t ht
 
 
 /-- the value that goes on (if any) refers to objects of `F` only -/
@@ -348,6 +468,11 @@ theorem applyStep_lc (hns : ∀ t, t.1 = ns → F t) (e : Step) (n : Nat) (x : H
   case tag name =>
     exact LC.bind g (fun c hc => LC.bind (LC.upd c hc _) (fun _ _ => LC.pure _ (stepIn_some (withCtx_in hx hc))))
   case app v =>
+    split
+    · rename_i d hd
+      exact LC.bind (LC.upd d (hx d (dataTok_mem hd)) _) (fun _ _ => LC.pure _ (stepIn_some hx))
+    · exact LC.pure _ (stepIn_some hx)
+  case setd key v =>
     split
     · rename_i d hd
       exact LC.bind (LC.upd d (hx d (dataTok_mem hd)) _) (fun _ _ => LC.pure _ (stepIn_some hx))
@@ -487,7 +612,7 @@ theorem hOps_local (ns : Nat) (sp : BSpec) : Local (hOps ns sp) ns := by
 
 /-- every modelled accumulator except those that yield the filled values by specification allocates
 what it yields -/
-theorem accOps_freshYield' (ns : Nat) (k : AccKind) (hk : k ≠ .store ∧ k ≠ .keepLast ∧ k ≠ .reqStore) :
+theorem accOps_freshYield' (ns : Nat) (k : AccKind) (hk : k.fresh = true) :
     FreshYield (accOps ns k) ns (fun s : HSt => s.ctr) := by
   have hmono : ∀ st (s : HSt) (r : Req Skel), s.ctr ≤ ((accOps ns k).act st s r).2.1.ctr := by
     intro st s r
